@@ -13,6 +13,7 @@ import (
 func init() {
 	extraGens["vesting"] = func(r *rand.Rand, depth int) (string, []Step) { return "vesting", genVestingWalk(r, depth) }
 	extraGens["batch"] = func(r *rand.Rand, depth int) (string, []Step) { return "ledger", genBatchWalk(r, depth) }
+	extraGens["orders"] = func(r *rand.Rand, depth int) (string, []Step) { return "orders", genOrdersWalk(r, depth) }
 	extraGens["oracle"] = func(r *rand.Rand, depth int) (string, []Step) { return "oracle", genOracleWalk(r, depth) }
 }
 
@@ -123,6 +124,77 @@ func genBatchWalk(r *rand.Rand, n int) []Step {
 		st = append(st, Step{"a": "block", "dt": float64(5)})
 		if r.Intn(3) == 0 {
 			st = append(st, Step{"a": "fee", "d": pick(r, "uusdc", "uatom", "uelys")})
+		}
+	}
+	return st
+}
+
+// genOrdersWalk: spot and perpetual limit orders (scene "orders": oracle pool 1 uatom/uusdc with perpetual trading, pool 2
+// uelys/uusdc): create / update / cancel by owners and by others, permissionless execution requests naming arbitrary ids,
+// trigger prices below / at / above the market, oracle price moves, executions made to fail.
+func genOrdersWalk(r *rand.Rand, n int) []Step {
+	var st []Step
+	users := []string{"u2", "u3", "u1"}
+	nextSpot, nextPerp := 1, 1
+	ids := func(max int) []any {
+		out := []any{}
+		for k := 0; k < 1+r.Intn(3); k++ {
+			out = append(out, float64(1+r.Intn(max+1)))
+		}
+		return out
+	}
+	muls := []string{"0.5", "0.9", "0.999", "1", "1.001", "1.1", "2"}
+	for i := 0; i < n; i++ {
+		u := pick(r, users...)
+		switch r.Intn(20) {
+		case 0, 1, 2:
+			typ := pick(r, "LIMITSELL", "STOPLOSS", "LIMITBUY", "LIMITBUY")
+			base, quote := "uatom", "uusdc"
+			if typ == "LIMITBUY" {
+				base, quote = "uusdc", pick(r, "uatom", "uelys")
+			} else if r.Intn(3) == 0 {
+				base = "uelys"
+			}
+			st = append(st, Step{"a": "spotOrder", "u": u, "type": typ, "base": base, "quote": quote, "d": base, "target": quote,
+				"sz": pick(r, "s1", "s2", "100", "1000000"), "mul": pick(r, muls...)})
+			nextSpot++
+		case 3:
+			st = append(st, Step{"a": "spotOrder", "u": u, "type": "MARKETBUY", "base": "uusdc", "quote": "uatom", "d": "uusdc", "target": "uatom", "sz": pick(r, "s1", "1000000"), "mul": "1"})
+		case 4, 5, 6:
+			st = append(st, Step{"a": "perpOrder", "u": u, "p": float64(1), "side": pick(r, "long", "long", "short"), "sz": pick(r, "s1", "1000000", "s2", "20%"),
+				"trig": pick(r, muls...), "lev": pick(r, "2", "3", "5", "9")})
+			nextPerp++
+		case 7:
+			st = append(st, Step{"a": "updateSpot", "u": pick(r, users...), "id": float64(1 + r.Intn(nextSpot)), "mul": pick(r, muls...)})
+		case 8:
+			st = append(st, Step{"a": "updatePerpOrder", "u": pick(r, users...), "id": float64(1 + r.Intn(nextPerp)), "mul": pick(r, "0.8", "0.999", "1", "1.001", "1.2")})
+		case 9:
+			st = append(st, Step{"a": "cancelSpot", "u": pick(r, users...), "id": float64(1 + r.Intn(nextSpot))})
+		case 10:
+			st = append(st, Step{"a": "cancelPerpOrder", "u": pick(r, users...), "id": float64(1 + r.Intn(nextPerp))})
+		case 11:
+			if r.Intn(2) == 0 {
+				st = append(st, Step{"a": "cancelSpots", "u": pick(r, users...), "ids": ids(nextSpot)})
+			} else {
+				st = append(st, Step{"a": "cancelPerpOrders", "u": pick(r, users...), "ids": ids(nextPerp)})
+			}
+		case 12, 13, 14:
+			st = append(st, Step{"a": "execOrders", "u": pick(r, "bot", "bot", "u3", "u2"), "spot": pick(r, ids(nextSpot), []any{}), "perp": pick(r, ids(nextPerp), []any{})})
+		case 15, 16:
+			st = append(st, Step{"a": "feed", "asset": pick(r, "ATOM", "ATOM", "ELYS"), "mul": pick(r, "0.8", "0.9", "0.97", "1.03", "1.1", "1.25")})
+		case 17:
+			// make later perpetual opens fail: a big position / a withdrawal that lowers pool health
+			st = append(st, pick(r, Step{"a": "perpOpen", "u": "u1", "p": float64(1), "side": "long", "coll": "uusdc", "sz": "s3", "lev": "5"},
+				Step{"a": "exit", "u": "u1", "p": float64(1), "frac": "65%"},
+				Step{"a": "swapIn", "u": "u1", "p": float64(1), "din": "uusdc", "sz": "s3", "limit": "loose"}))
+		case 18:
+			st = append(st, Step{"a": "perpClose", "u": u, "id": float64(1 + r.Intn(3)), "frac": "all"})
+		default:
+			st = append(st, Step{"a": "block", "dt": float64(pick(r, 5, 5, 60))})
+			continue
+		}
+		if r.Intn(2) == 0 {
+			st = append(st, Step{"a": "block", "dt": float64(pick(r, 5, 5, 60))})
 		}
 	}
 	return st
